@@ -224,8 +224,9 @@ class _Canon(ast.NodeTransformer):
             # a value may read its own target and the targets still to be assigned, not one assigned before it
             early = any(ast.unparse(n) == ast.unparse(tg[j]) for i, v in enumerate(vs) for n in ast.walk(v)
                         if isinstance(n, (ast.Name, ast.Attribute, ast.Subscript)) for j in range(i))
+            # (values that can fail must all be evaluated before the first store into the bandit)
             if (local and not early or not (ttxt & reads)) and not (roots & reads) and \
-                    (local or all(_pure_expr(v) for v in vs)) and \
+                    (local or all(_pure_expr(v) for v in vs) and not any(_may_raise(v) for v in vs[1:])) and \
                     all(isinstance(t, (ast.Name, ast.Attribute, ast.Subscript)) for t in tg):
                 out = []
                 for t, v in zip(tg, vs):
@@ -790,7 +791,7 @@ def _drop_dead_assignments(fn):
     def transfer(st, live, mark):
         if isinstance(st, ast.Assign) and len(st.targets) == 1 and isinstance(st.targets[0], ast.Name):
             x = st.targets[0].id
-            if x not in live and _pure_expr(st.value):
+            if x not in live and _pure_expr(st.value) and not _may_raise(st.value):
                 if mark:
                     dead.append(st)
                 return live
